@@ -395,6 +395,58 @@ func TestVerifC34(t *testing.T) {
 		rep.Count("D:parked-writer-scenarios")
 	}
 
+	// ---- race: Subscribe(i) against Signal(i) ------------------------------------------
+	// Two goroutines leave a spin barrier together, one subscribes to index i, the other
+	// signals index i. Whatever the order, once BOTH calls have returned the channel must be
+	// closed (Subscribe saw the index reached, or Signal found the subscriber). No timing
+	// assumption: the close happens inside one of the two calls.
+	{
+		rounds := vfScale(40000, 1500000)
+		rt := NewReadyTarget[uint64]()
+		lost := 0
+		firstLost := -1
+		for i := 1; i <= rounds; i++ {
+			var ready, go_ atomic.Int32
+			var ch <-chan struct{}
+			var wg sync.WaitGroup
+			wg.Add(2)
+			idx := uint64(i)
+			go func() {
+				defer wg.Done()
+				ready.Add(1)
+				for go_.Load() == 0 {
+				}
+				ch = rt.Subscribe(idx)
+			}()
+			go func() {
+				defer wg.Done()
+				ready.Add(1)
+				for go_.Load() == 0 {
+				}
+				rt.Signal(idx)
+			}()
+			for ready.Load() < 2 {
+			}
+			go_.Store(1)
+			wg.Wait()
+			if !c34Closed(ch) {
+				lost++
+				if firstLost < 0 {
+					firstLost = i
+				}
+				if lost >= 3 {
+					break
+				}
+			}
+		}
+		if lost > 0 {
+			rep.Fail("waiter-not-woken-at-target", fmt.Sprintf("Subscribe(%d) raced with Signal(%d): both calls returned and the subscriber's channel is still open (index reached, waiter never woken); %d such rounds, %d subscribers left registered", firstLost, firstLost, lost, rt.Len()),
+				map[string]interface{}{"round": firstLost, "scenario": "goroutine A: ch := Subscribe(i); goroutine B: Signal(i); released together from a spin barrier; after both returned ch must be closed"})
+		}
+		rep.Case("race:subscribe-vs-signal", true)
+		rep.CountN("race:subscribe-vs-signal-rounds", rounds)
+	}
+
 	// ---- B: concurrent runs ------------------------------------------------------
 	nB := vfScale(40, 2500)
 	for run := 0; run < nB; run++ {
